@@ -826,3 +826,15 @@ package types
 //@   for C13 C18
 //@   ensures pv == nil ==> err != nil
 //@   ensures [fieldsCopied] err == nil ==> r != nil && fresh(r) && r.Type == pv.Type && r.Height == pv.Height && r.Round == pv.Round && r.Timestamp == pv.Timestamp && r.ValidatorIndex == pv.ValidatorIndex && r.Signature == pv.Signature && (len(pv.ValidatorAddress) == 20 ==> content(r.ValidatorAddress) == content(pv.ValidatorAddress))
+
+// ---------------------------------------------------------------- C16: stored receipts decode back field by field
+// Every consensus field (status/post-state, cumulative gas, bloom, logs) and every implementation field
+// of the decoded storage form is assigned to the receipt.
+//@ func (r *ReceiptForStorage) DecodeRLP(s *rlp.Stream) (err error)
+//@   for C16
+//@   requires r != nil
+//@   modifies *
+//@   ensures [consensusFieldsAssigned] err == nil ==> r.CumulativeGasUsed == dec.CumulativeGasUsed && r.Bloom == dec.Bloom && len(r.Logs) == len(dec.Logs)
+//@   ensures [implementationFieldsAssigned] err == nil ==> r.TxHash == dec.TxHash && r.ContractAddress == dec.ContractAddress && r.GasUsed == dec.GasUsed
+//@   loop 1:
+//@     invariant len(r.Logs) == len(dec.Logs) && r.CumulativeGasUsed == dec.CumulativeGasUsed && r.Bloom == dec.Bloom
